@@ -108,3 +108,8 @@ Proof.
   revert b; induction a as [|x a IH]; intros [|y b]; cbn; try (split; congruence).
   rewrite andb_true_iff, Z.eqb_eq, IH. split; [intros [-> ->]; reflexivity|intros H; inversion H; auto].
 Qed.
+
+Lemma bytes_ok_firstn n l : bytes_ok l -> bytes_ok (firstn n l).
+Proof. unfold bytes_ok. revert l; induction n as [|n IH]; intros [|x l] H; cbn; try constructor; inversion H; subst; auto. Qed.
+Lemma bytes_ok_skipn n l : bytes_ok l -> bytes_ok (skipn n l).
+Proof. unfold bytes_ok. revert l; induction n as [|n IH]; intros [|x l] H; cbn; auto. inversion H; subst; auto. Qed.
